@@ -18,6 +18,8 @@ tvars == <<l, skip, oracle, vars>>
 
 Act(e) == CASE e.op = "make" -> MakeKernel(e.s, e.m, e.q)
             [] e.op = "call" -> Call(e.s, e.r, e.f)
+            [] e.op = "direct" -> Direct(e.m, e.q, e.r)
+            [] e.op = "reload" -> Reload(e.m)
             [] e.op = "release" -> ReleaseKernel(e.s)
             [] e.op = "relmodel" -> ReleaseModel(e.m)
             [] e.op = "set" -> SetParam(e.w, e.r)
@@ -32,6 +34,7 @@ Reject(e, clause, detail) ==
 ResetH(e) == /\ kern' = [s \in Slots |-> Dead]
              /\ loaded' = [m \in Models |-> FALSE]
              /\ wrap' = [w \in Wrappers |-> [m |-> e.wmodel[w], store |-> "mono"]]
+             /\ dm' = [x \in Models \X QSets |-> <<"garbage">>]
              /\ dict' = [r \in Requests |-> TRUE]
              /\ ret' = NoRet /\ nops' = 0
 
